@@ -171,6 +171,18 @@ _salts = st.one_of(st.sampled_from(["Tsalt", "", "s", "_x", "QzF", "iH", "s@lty"
 def _case(draw):
     form = draw(st.sampled_from(_FORMS1))
     c, v = draw(S.secret_for(form))
+    if c == "j9" and draw(st.integers(0, 2)) == 0:
+        # plaintexts over all code points 1..255 (control characters, NBSP, DEL, ...), lengths up to 64
+        plain = "".join(chr(x) for x in draw(st.lists(st.one_of(st.integers(1, 255), st.sampled_from([9, 27, 7, 127, 160, 255, 1])), min_size=1, max_size=draw(st.sampled_from([4, 16, 64])))))
+        v = draw(S.j9_value(plain=plain))
+    if c == "type7" and draw(st.integers(0, 2)) == 0:
+        from ..ref import type7 as _T7
+
+        plain = draw(S.chars(S.TEXT_END + " ", 20, 64))  # long type-7 secrets
+        v = _T7.encode(plain, draw(st.integers(0, 15)))
+        while v.isdigit():
+            plain += "x"
+            v = _T7.encode(plain, 3)
     if c in ("text", "hex", "numeric") and "exact" not in form.text_kw and draw(st.integers(0, 9)) == 0:
         # long values (up to 64 characters)
         extra = draw(S.chars({"text": S.NONHEX_LETTERS, "hex": "0123456789abcdef", "numeric": "0123456789"}[c], 20, 48))
